@@ -16,6 +16,8 @@ define: U_MAIN, U_POS
 src: strings.c
 enforce: spiftool_substr
 backend: sat
+native: strhelp
+native_includes: strings.c
 */
 /* idx < 0 or cnt <= 0: the code computes len + idx and len - start + cnt in spif_uint32_t on purpose
  * (modular arithmetic, defined behaviour, the range test "start_pos < len" follows); cbmc's
@@ -27,6 +29,8 @@ src: strings.c
 enforce: spiftool_substr
 backend: sat
 checks_off: --conversion-check
+native: strhelp
+native_includes: strings.c
 */
 /* carrier of a known finding: the failing run must build a counterexample, which runs out of memory
  * with a string of symbolic size up to VCAP, hence the small cap (tier B, no loop involved) */
@@ -39,6 +43,8 @@ backend: sat
 tier: B
 bound: string length <= 32 (loop-free; cap only keeps the counterexample small)
 checks_off: --conversion-check
+native: strhelp
+native_includes: strings.c
 */
 #define VERIF_OWN_STRLEN
 #define VERIF_STRHELP_MEMCPY_AT_K
